@@ -15,6 +15,7 @@ def run(ctx):
         vlib.tlc_mc(ctx, 'MC_Lifecycle', 'MC_Lifecycle_window', workers=8)
     else:
         vlib.tlc_mc(ctx, 'MC_Lifecycle', 'MC_Lifecycle', workers=12, heap='24g')
+    vlib.tlapm(ctx, 'Proofs_Base')     # unbounded: Outcome is NA out of scope / when inapplicable, otherwise exactly the body's verdict
     msum, mism = execcommon.mock_replay(ctx, exe, ['MC_Lifecycle_export_scope', 'MC_Lifecycle_export_window'])
     for m in mism[:40]:
         c = m['Case']
